@@ -812,3 +812,61 @@ def rule_listing_end_latched(ctx):
                 break
     ctx.floor("LISTEND", 2, n, "(DFAN routines that read from the saved next-reference)")
     return n
+
+
+def rule_directory_slot_live(ctx):
+    """SLOTLIVE (C11): DFAN's in-memory directory is a chain of blocks of DFAN_DEFENTRIES slots; DFANIaddentry marks the unused
+    slots of a new block by `annref = 0` and leaves their other fields as malloc returned them.  A reader of a slot's
+    `datatag` / `dataref` therefore looks at them only under a test of the same slot's `annref` (as the look-up in
+    DFANIlocate does): without it a listing compares uninitialised memory with the caller's tag and, on a match, opens
+    reference 0 - "any" - and files that label under an arbitrary object."""
+    from .facts import calls_in
+    prog = ctx.prog
+    n = 0
+    for f in prog.lib_funcs():
+        ast = f.raw.get("ast")
+        if not ast or not f.rel.endswith("hdf/src/dfan.c"):
+            continue
+        found = []
+
+        def is_slot_field(x, names):
+            return x[0] == "mem" and x[2] in names and x[3] in ("DFANdirentry",) and kind(strip(x[1])) == "idx"
+
+        def vis(nd, st):
+            if nd[0] in ("s", "if", "for", "while") and nd[1] is not None:
+                exprs = [e for e in (nd[1:4] if nd[0] == "for" else [nd[1]]) if isinstance(e, list) and e and isinstance(e[0], str)]
+                for e in exprs:
+                    # reads only: skip the left-hand side of plain assignments
+                    writes = {id(strip(x[2])) for x in walk(e, True) if x[0] == "asg" and x[1] == "="}
+                    for x in walk(e, True):
+                        if is_slot_field(x, ("datatag", "dataref")) and id(x) not in writes:
+                            found.append((nd, list(st), x, e))
+            return True
+
+        ast_walk(ast, vis)
+        seen = set()
+        k = 0
+        for nd, st, x, e in found:
+            slot = render(strip(x[1]))
+            line = nd[-3] if isinstance(nd[-3], int) else f.line
+            if (line, slot) in seen:
+                continue
+            seen.add((line, slot))
+            # UINT16DECODE(ptr, slot.datatag) and friends are stores through a macro
+            if any(y[0] == "asg" and render(strip(y[2])) == render(x) for y in walk(e, True)):
+                continue
+            k += 1
+            n += 1
+            key = "SLOTLIVE:%s#%d" % (f.name, k)
+            guarded = False
+            # in the same condition, before it (short-circuit), or in an enclosing if
+            for c in [e] + [a[1] for a in st if a[0] == "if" and a[1] is not None]:
+                for y in walk(c, True):
+                    if y[0] == "mem" and y[2] == "annref" and render(strip(y[1])) == slot:
+                        guarded = True
+            if guarded:
+                ctx.holds("SLOTLIVE", key, f.where(line), "`%s.%s` is read under a test of the slot's annref" % (slot[:40], x[2]), nontrivial=True)
+            else:
+                ctx.violated("SLOTLIVE", key, f.where(line), "`%s.%s` is read with no test of the slot's annref: unused slots of a block DFANIaddentry allocated hold uninitialised memory there" % (slot[:40], x[2]))
+    ctx.floor("SLOTLIVE", 2, n, "(reads of a DFAN directory slot's object tag/ref)")
+    return n
